@@ -1,4 +1,5 @@
-import GB.C01.Status
+import GB.C01.Adapter
+import GB.Generated.Facts
 /-
   C01 — forwarded calls deliver exactly the messages and final status exchanged.
 
@@ -179,6 +180,64 @@ theorem C01_complete (p : Params) (tr : List (Label M E)) (s : State M E) (h : R
     have hi := h.sinv.ncs_i hcs
     rw [h.tracks.incRecv, h.tracks.outSent, hl, hi, hd] at g
     simpa using g.symm
+
+/-! ### The real adapters: what the LTS assumes of them, what follows, and what pins the glue
+
+  The LTS's labels live at the adapter interface (`ServerStream`, `ClientConn`, `ClientStream`). What the
+  CLIENT and the TARGET see is related to them by the adapters. `AdapterView` (GB/C01/Adapter.lean) states
+  these environment assumptions one by one, with the harness judgement that validates each on the REAL
+  `AdaptedClientPool.New → AdaptedClientConn → AdaptedClientStream` over grpc-go and on the proxy's
+  `grpcServerStream` (`real`, `e2e`, `multi` lines of area c01). -/
+
+/-- Forward calls Outgoing.Stream at most once per bridged call. -/
+theorem C01_one_stream_call (p : Params) (tr : List (Label M E)) (s : State M E) (h : Run p tr s) :
+    streamCalls tr ≤ 1 := by
+  rcases streamCalls_le_one p tr s h with h0 | ⟨h1, _⟩ <;> omega
+
+/-- Under the adapter assumptions the peers' views satisfy C01: the target sees at most ONE call, what it
+    received is a prefix of what the client handed over (no duplicate, no replay), what the client received
+    is a prefix of what the target produced, and in a fault-free completed call of a server-streaming
+    method the value Forward returns is the target's own final status. -/
+theorem C01_real_adapter_assumptions (p : Params) (tr : List (Label M E)) (s : State M E) (h : Run p tr s)
+    (tcalls : Nat) (tsaw csaw : List M) (tstatus : Option (Option E))
+    (hv : AdapterView tr tcalls tsaw tstatus csaw) :
+    tcalls ≤ 1 ∧ tsaw <+: incReceived tr ∧ csaw <+: outReceived tr ∧
+    (∀ e, s.main = .done e → hasFault tr = false → p.ss = true →
+      (∀ x, tstatus = some (some x) → e = some (.peer x)) ∧ (tstatus = some none → e = none)) := by
+  refine ⟨by rw [hv.one_call]; exact C01_one_stream_call p tr s h,
+    hv.at_most_once.trans (C01_req_prefix p tr s h), hv.incoming.trans (C01_resp_prefix p tr s h), ?_⟩
+  intro e hd hf hss
+  refine ⟨fun x hx => ?_, fun hx => ?_⟩
+  · exact C01_status_error p tr s h e hd hf x (by rw [← hv.terminal]; exact hx) (Or.inl hss)
+  · exact C01_status_ok p tr s h e hd hf hss (by rw [← hv.terminal]; exact hx)
+
+/-- Facts tie (regenerated from grpcadapter/pool.go and conn.go on every run): the pool's defaults only set
+    the constructor function; neither the pool nor the connection adapter mentions any dial option, call
+    option, service config, retry / hedging policy or interceptor; the options handed to grpc.NewClient are
+    exactly the caller's (`DefaultOpts ++ opts`), and NewStream gets no CallOption. A changed default breaks
+    this `decide` even if no generated case happens to hit the affected status code. -/
+theorem C01_facts_pool_default_opts :
+    GB.Generated.c01PoolWithDefaultsAssigns = ["o.NewClientFunc"]
+    ∧ GB.Generated.c01PoolGrpcOptionCalls = []
+    ∧ GB.Generated.c01PoolNewClientArgs = ["dialTarget", "slices.Concat(p.opts.DefaultOpts, opts)..."]
+    ∧ GB.Generated.c01NewStreamArgs =
+        ["streamCtx", "&grpc.StreamDesc{ClientStreams: true, ServerStreams: true}", "method"] := by
+  decide
+
+/-- Calls are independent in the model: the state of a call is a function of THAT call's own events — every
+    call starts from the constant `init`, nothing is carried over from a previous call. -/
+theorem C01_calls_independent (p : Params) (tr : List (Label M E)) (s s' : State M E)
+    (h : Run p tr s) (h' : Run p tr s') : s = s' := by
+  have e := h.run_eq
+  rw [h'.run_eq] at e
+  exact (Option.some.inj e).symm
+
+/-- …and the fact that makes this the shape of the code (regenerated by the C07 extractor over the root
+    package — proxy.go, forwarder.go, bridge.go — and grpcadapter): no package-level mutable variable and no
+    sync.Pool / sync.Once through which one call could reach another call's state. -/
+theorem C01_facts_no_package_state :
+    GB.Generated.c07MutablePackageVars = [] ∧ GB.Generated.c07SharedSyncTypes = [] := by
+  decide
 
 /-! ### Non-vacuity: a concrete bidirectional run — 3 requests, 2 responses, status error 42 -/
 
